@@ -1,3 +1,4 @@
+mod awscheck;
 mod broker;
 mod check;
 mod clientsim;
@@ -37,6 +38,7 @@ fn main() {
                 "C02" => codecfuzz::run_c02(&tier, seed),
                 "C16" => valfuzz::run_c16(&tier, seed),
                 "C12" => clientsim::run_c12(&tier, seed),
+                "C20" => awscheck::run_c20(&tier, seed),
                 "C19" => clientsim::run_c19(&tier, seed),
                 "C03" => codecfuzz::run_c03(&tier, seed),
                 _ => { println!("INCONCLUSIVE property={} reason=unknown-check", id); 3 }
